@@ -20,6 +20,7 @@ vars == <<l, cb, bad, nviol>>
 
 Apply(s, e) ==
     CASE e.ev = "Reset"      -> EmptyBuf
+      [] e.ev = "Panic"      -> s
       [] e.ev = "SetContent" -> ReqSetContent(s, e.x, e.y, e.cp, e.wc, e.comb, e.st)
       [] e.ev = "Fill"       -> ReqFill(s, e.cp, e.wc, e.st)
       [] e.ev = "Resize"     -> ReqResize(s, e.x, e.y)
@@ -37,6 +38,8 @@ Oob == [src |-> "oob", wc |-> 0, cp |-> 0]
 
 Deviations(s, e) ==
     IF e.ev = "Reset" THEN {}
+    \* no documented call on a CellBuffer may panic, whatever its coordinates: nothing holds of the state after it
+    ELSE IF e.ev = "Panic" THEN {[tag |-> "C08.panic", part |-> e.op, x |-> e.x, y |-> e.y, src |-> e.msg, wc |-> 0, cp |-> 0]}
     ELSE
       (IF e.w # s.w \/ e.h # s.h \/ Len(e.obs) # s.w * s.h
        THEN {Dev("C08.size", "size", e.w, e.h, Oob)}
